@@ -114,6 +114,22 @@ pub fn run_pty_case(case: &Case, env: &Env, long_sleep: bool) -> CaseOut {
                     break;
                 }
             }
+            // C19 through the real display: every `a/b done` line shows b = number of (non-phony) wanted steps and a <= b
+            for line in text.split(|c| c == '\n' || c == '\r') {
+                if let Some(pos) = line.find(" done, ") {
+                    let head = &line[..pos];
+                    if let Some(frac) = head.rsplit(' ').next() {
+                        if let Some((a, b)) = frac.split_once('/') {
+                            if let (Ok(a), Ok(b)) = (a.parse::<usize>(), b.parse::<usize>()) {
+                                if b != n || a > b {
+                                    out.viols.push(Viol::new("C19", "displayed-progress", format!("progress line shows {}/{} done for a build of {} steps: {:?}", a, b, n, line.chars().take(120).collect::<String>())));
+                                    break;
+                                }
+                            }
+                        }
+                    }
+                }
+            }
             if !text.contains("now up to date") && out.viols.is_empty() {
                 out.viols.push(Viol::new("C20", "no-summary", format!("no success summary on the terminal: {:?}", text.chars().rev().take(200).collect::<String>())));
             }
